@@ -468,6 +468,455 @@ def run(repo: Repo, rep: Report) -> None:  # noqa: F811
                "bounds clamped" if not bad else "slice bound(s) %s can be negative: SUBSTR(\"hello\", 0) reads the string from the end (\"o\" instead of \"hello\"), SUBSTR(\"hello\", 0, 3) is \"\" instead of \"he\"" % bad, node=sl)
 
 
+_run_base5 = run
+
+
+def run(repo: Repo, rep: Report) -> None:  # noqa: F811
+    """Layer 6: rules o-y (F175-F184), helpers in vlib/h_c04.py."""
+    _run_base5(repo, rep)
+    from vlib import h_c04 as H
+
+    rep.extra["explanation"] = rep.extra.get("explanation", "") + (
+        " Further necessary conditions (rules o-y): the translator tests optional expressions and possibly-empty clauses by identity and stores only nodes in "
+        "part slots; forget() keeps a part's own variables; a pushed-down solution is merged with the left one before use; && / || / IN handle errors per "
+        "operand over unevaluated operands, IN uses the `=` method; Extend checks a pushed-in value; a made-up graph is checked for existence; EBV excludes NaN."
+    )
+
+    T = repo.typed
+    ev = repo.mod("rdflib.plugins.sparql.evaluate")
+    alg = repo.mod("rdflib.plugins.sparql.algebra")
+    op = repo.mod("rdflib.plugins.sparql.operators")
+    par = repo.mod("rdflib.plugins.sparql.parser")
+    def _identity_target(n: ast.AST):
+        """`x is None` / `x is not None` / `x == None` -> x"""
+        if isinstance(n, ast.Compare) and len(n.ops) == 1 and isinstance(n.ops[0], (ast.Is, ast.IsNot, ast.Eq, ast.NotEq)):
+            l, r = n.left, n.comparators[0]
+            if isinstance(r, ast.Constant) and r.value is None:
+                return l
+            if isinstance(l, ast.Constant) and l.value is None:
+                return r
+        return None
+
+    # ------------------------------------------------------------------ (o)
+    # An *expression* position of the translator holds whatever the grammar's PrimaryExpression admits, including a bare
+    # term: and_(x) is x, translateExists(x) is x for a non-EXISTS x.  Literal(false) / Literal(0) / Literal("") are falsy.
+    rep.rule("C04.o-translator-decides-absent-expression-by-identity",
+             "in the translator (algebra.py) a value whose static type is `<expression> | None` (Expr, Literal, Node ...) is tested for absence by identity "
+             "(`is None` / `is not None`), never by truthiness: an expression slot may hold a bare term, and the constant filters FILTER(false), FILTER(0), "
+             "FILTER(\"\") are falsy Python objects - `if filters:` drops them and `SELECT * { ?s ?p ?o FILTER(false) }` returns every triple", floor=1)
+    EXPR_BASES = {"rdflib.plugins.sparql.parserutils.Expr", "rdflib.term.Literal"}
+    EXPR_EXACT = {"rdflib.term.Node", "rdflib.term.Identifier"}
+
+    def _expr_optional(e: ast.AST) -> bool:
+        tf = T.type_of(alg.name, e)
+        return bool(tf and tf.optional and any(i in EXPR_EXACT or any(b in EXPR_BASES for b in T.mro(i)) for i in tf.items))
+
+    for q, f in alg.functions():
+        if "." in q:
+            continue
+        rep.analysed("%s:%s" % (alg.rel, q))
+        for n in own_nodes(f, include_nested=True):
+            t = _identity_target(n)
+            if t is not None and _expr_optional(t):
+                rep.ob("C04.o-translator-decides-absent-expression-by-identity", alg, q, n, True, "absence of the expression decided by identity", node=n)
+        for e, owner, kind in truthy.bool_contexts(f):
+            if isinstance(e, (ast.Compare, ast.Constant)) or not _expr_optional(e):
+                continue
+            rep.ob("C04.o-translator-decides-absent-expression-by-identity", alg, q, "%s [in %s]" % (norm(e), kind), False,
+                   "truthiness of %s : %s conflates `no expression` with an expression that is a falsy term: FILTER(false), FILTER(0), FILTER(\"\") "
+                   "are dropped from the algebra and every solution passes" % (norm(e), T.type_of(alg.name, e)), node=e)
+
+    # ------------------------------------------------------------------ (p)
+    # CompValue is an OrderedDict of the Params that matched: a Comp all of whose Params are optional comes out EMPTY, i.e.
+    # falsy, although the clause is present.  Which Comps can be empty is computed from the grammar (parser.py).
+    rep.rule("C04.p-possibly-empty-clause-is-tested-by-identity",
+             "an attribute of a parse-tree node that holds a Comp which can match without setting any Param (computed from the grammar: every Param sits under "
+             "Optional/ZeroOrMore or in one branch of an alternative only) is tested for presence by identity, not by truthiness: the CompValue of "
+             "`VALUES () { }` is an empty OrderedDict, so `if q.valuesClause:` ignores a trailing VALUES block that has no solutions and "
+             "`SELECT * { ?s ?p ?o } VALUES () { }` returns rows instead of none", floor=1)
+    gram = H.Grammar(par)
+    maybe_empty = gram.maybe_empty_comp_params()
+    if "valuesClause" not in maybe_empty:
+        raise AnalysisError("grammar analysis: Param valuesClause no longer holds a possibly-empty Comp (rule C04.p premise changed): %s" % maybe_empty)
+
+    def _clause_attr(fn: ast.AST, e: ast.AST):
+        """e is `<node>.<param>` (or a local bound only to such reads) for a Param that may hold an empty Comp"""
+        cands = [e]
+        if isinstance(e, ast.Name):
+            cands = H.local_defs(fn, e.id)
+            if not cands:
+                return None
+        hit = None
+        for c in cands:
+            if isinstance(c, ast.Attribute) and c.attr in maybe_empty:
+                hit = c.attr
+            else:
+                return None
+        return hit
+
+    for mod in (alg, ev):
+        for q, f in mod.functions():
+            if "." in q:
+                continue
+            for n in own_nodes(f, include_nested=True):
+                t = _identity_target(n)
+                a = _clause_attr(f, t) if t is not None else None
+                if a:
+                    rep.ob("C04.p-possibly-empty-clause-is-tested-by-identity", mod, q, n, True, "presence of the %s clause decided by identity" % maybe_empty[a], node=n)
+            for e, owner, kind in truthy.bool_contexts(f):
+                a = _clause_attr(f, e)
+                if a:
+                    rep.ob("C04.p-possibly-empty-clause-is-tested-by-identity", mod, q, "%s [in %s]" % (norm(e), kind), False,
+                           "%s holds a %s node, which is an EMPTY (falsy) mapping when none of its optional parts matched (e.g. `VALUES () { }`): "
+                           "truthiness treats the present clause as absent" % (norm(e), maybe_empty[a]), node=e)
+
+    # ------------------------------------------------------------------ (q)
+    # evalPart / evalMultiset dispatch on `<part>.name`; whatever is stored in a part slot (p, p1, p2) must be a node.
+    rep.rule("C04.q-part-slots-hold-algebra-nodes",
+             "what an algebra-node constructor of algebra.py stores in a part slot (the keys p / p1 / p2, which evalPart and evalMultiset dispatch on by `.name`) is "
+             "an algebra node on every path: when the argument is the result of a translator function whose declared type admits a list, every `return` of that "
+             "function yields a CompValue. `VALUES ?x { }` used to come back as a bare list from translateValues, and ToMultiSet(<list>) made evalMultiset fail "
+             "with AttributeError instead of producing the empty multiset", floor=20)
+    PART_KEYS = {"p", "p1", "p2"}
+    ctors: dict[str, dict] = {}   # constructor -> {param name: key} for part slots
+    for q, f in alg.functions():
+        if "." in q:
+            continue
+        rets = [r for r in own_nodes(f) if isinstance(r, ast.Return) and r.value is not None]
+        if rets and all(isinstance(r.value, ast.Call) and norm(r.value.func) == "CompValue" for r in rets):
+            slots = {}
+            for r in rets:
+                for k in r.value.keywords:
+                    if k.arg in PART_KEYS and isinstance(k.value, ast.Name) and k.value.id in H.params_of(f):
+                        slots[k.value.id] = k.arg
+            if slots:
+                ctors[q] = {"params": H.params_of(f), "slots": slots}
+    if len(ctors) < 8:
+        raise AnalysisError("algebra.py: expected >= 8 node constructors with part slots, found %s" % sorted(ctors))
+    NODE = "rdflib.plugins.sparql.parserutils.CompValue"
+
+    def _is_node_type(e: ast.AST):
+        tf = T.type_of(alg.name, e)
+        if tf is None or (tf.any and not tf.items):
+            return None  # untyped (attribute of a CompValue): not decided here
+        return all(NODE in T.mro(i) for i in tf.items)
+
+    for q, f in alg.functions():
+        for c in own_nodes(f):
+            if not (isinstance(c, ast.Call) and isinstance(c.func, ast.Name) and c.func.id in ctors):
+                continue
+            info = ctors[c.func.id]
+            given = [(info["params"][i], a) for i, a in enumerate(c.args) if i < len(info["params"])] + [(k.arg, k.value) for k in c.keywords]
+            for pname, a in given:
+                if pname not in info["slots"]:
+                    continue
+                verdict = _is_node_type(a)
+                why = "typed as a node"
+                if verdict is None:
+                    why = "untyped (read from a node)"
+                    verdict = True
+                elif verdict is False and isinstance(a, ast.Call) and isinstance(a.func, ast.Name) and alg.has(a.func.id):
+                    callee = alg.func(a.func.id)
+                    bad = [r for r in own_nodes(callee) if isinstance(r, ast.Return) and (r.value is None or _is_node_type(r.value) is False)]
+                    verdict = not bad
+                    why = "every return of %s is a node" % a.func.id if verdict else \
+                        "%s can return %s, which is not an algebra node: %s(...) stores it in slot `%s` and evaluation fails on `.name` (e.g. VALUES ?x { })" % (
+                            a.func.id, [norm(r)[:40] for r in bad], c.func.id, info["slots"][pname])
+                elif verdict is False:
+                    why = "%s : %s is not an algebra node" % (norm(a)[:40], T.type_of(alg.name, a))
+                rep.ob("C04.q-part-slots-hold-algebra-nodes", alg, q, "%s(%s=%s)" % (c.func.id, pname, norm(a)[:60]), verdict, why, node=c)
+
+    # ------------------------------------------------------------------ (r)
+    rep.rule("C04.r-forget-keeps-the-parts-own-variables",
+             "every `<solution>.forget(<ctx>, ...)` of the evaluator (the step that hides bindings pushed in from the enclosing join before an expression is "
+             "evaluated) passes `_except=` a set computed from the `_vars` annotation of the part(s) whose expression is evaluated: variables the part itself "
+             "binds are in scope for its expression even when the enclosing join has pushed in a value for them. Without it, in "
+             "`?s :p ?x . OPTIONAL { ?s :q ?y FILTER(?x = ?y) }` joined after a pattern binding ?x the condition sees ?x unbound and the optional part never matches", floor=3)
+    for mod in (ev, repo.mod("rdflib.plugins.sparql.evalutils"), op, repo.mod("rdflib.plugins.sparql.aggregates"), repo.mod("rdflib.plugins.sparql.update")):
+        for q, f in mod.functions():
+            for c in own_nodes(f):
+                if not (isinstance(c, ast.Call) and isinstance(c.func, ast.Attribute) and c.func.attr == "forget" and (c.args or c.keywords)):
+                    continue
+                exc = [k.value for k in c.keywords if k.arg == "_except"] + list(c.args[1:2])
+                ok = bool(exc) and any(isinstance(x, ast.Attribute) and x.attr == "_vars" for x in H.closure_nodes(f, exc[0]))
+                rep.ob("C04.r-forget-keeps-the-parts-own-variables", mod, q, c, ok,
+                       "keeps the variables of the part" if ok else
+                       "%s: every variable bound in the incoming context is hidden from the expression, including the ones this part binds itself "
+                       "(a pushed-in binding of a variable the OPTIONAL/FILTER/BIND expression uses makes the expression err)" % (
+                           "no _except" if not exc else "_except=%s is not computed from a part's _vars" % norm(exc[0])[:40]), node=c)
+
+    # ------------------------------------------------------------------ (s)
+    rep.rule("C04.s-pushed-down-solution-is-merged-before-use",
+             "a solution produced by evaluating a part under `ctx.thaw(<left solution>)` (the push-down form of a join) may have lost the left solution's bindings "
+             "again (a sub-SELECT projects them away), so inside the loop it is only ever used as `<b>.merge(<left solution>)`, or rebound to that merge before any "
+             "other use - in particular before the LeftJoin condition is evaluated over it: in `?s :p ?x OPTIONAL { { SELECT ?y { ?s :q ?y } } FILTER(?x = ?y) }`-like "
+             "queries the condition must see ?x", floor=3)
+    for mod in (ev, op):
+        for q, f in mod.functions():
+            if "." in q:
+                continue
+            loops = []  # (target, iter, [body nodes])
+            for n in own_nodes(f, include_nested=True):
+                if isinstance(n, ast.For):
+                    loops.append((n.target, n.iter, n.body, n))
+                elif isinstance(n, (ast.GeneratorExp, ast.ListComp, ast.SetComp)) and len(n.generators) == 1:
+                    g0 = n.generators[0]
+                    loops.append((g0.target, g0.iter, [n.elt] + list(g0.ifs), n))
+            for tgt, it, body, owner in loops:
+                if not (isinstance(it, ast.Call) and norm(it.func) == "evalPart" and it.args and isinstance(tgt, ast.Name)):
+                    continue
+                lefts = {norm(c.args[0]) for c in H.closure_nodes(f, it.args[0], depth=2)
+                         if isinstance(c, ast.Call) and isinstance(c.func, ast.Attribute) and c.func.attr == "thaw" and c.args}
+                if not lefts:
+                    continue
+                uses = sorted((u for b in body for u in ast.walk(b) if isinstance(u, ast.Name) and u.id == tgt.id and isinstance(u.ctx, ast.Load)),
+                              key=lambda u: (u.lineno, u.col_offset))
+                bad = None
+                for u in uses:
+                    p1 = mod.parent.get(id(u))
+                    p2 = mod.parent.get(id(p1)) if p1 is not None else None
+                    merged = isinstance(p1, ast.Attribute) and p1.attr == "merge" and p1.value is u and isinstance(p2, ast.Call) and p2.func is p1 \
+                        and len(p2.args) == 1 and norm(p2.args[0]) in lefts
+                    if not merged:
+                        bad = u
+                        break
+                    p3 = mod.parent.get(id(p2))
+                    if isinstance(p3, ast.Assign) and p3.value is p2 and len(p3.targets) == 1 and norm(p3.targets[0]) == tgt.id and any(p3 is s for s in body):
+                        break  # rebound to the merge at the top of the loop body: later uses see the merged solution
+                rep.ob("C04.s-pushed-down-solution-is-merged-before-use", mod, q, "for %s in %s" % (norm(tgt), norm(it)[:60]), bad is None,
+                       "used only merged with %s" % sorted(lefts) if bad is None else
+                       "the solution of the pushed-down part is used unmerged in `%s`: bindings of the left solution %s that a sub-SELECT on the right projected away "
+                       "are missing there (a LeftJoin condition over them errs, so the OPTIONAL part is lost)" % (norm(H.enclosing_stmt(mod, bad) if isinstance(owner, ast.For) else owner)[:70], sorted(lefts)),
+                       node=owner, vacuous=not uses)
+
+    # ------------------------------------------------------------------ (t)
+    rep.rule("C04.t-logical-connective-survives-an-operand-error",
+             "in operators.py every `EBV(<x>)` applied to the variable of an iteration over operands (the n-ary connectives && and ||) is a statement-loop body "
+             "inside a `try` whose SPARQLError handler stays in the loop (no raise/return/break): an operand that errs must not end the evaluation, because a later "
+             "operand can still decide the result (error && false = false, error || true = true, SPARQL 17.2). A comprehension `all(EBV(x) for x in ...)` lets the "
+             "first error escape: FILTER(?unbound > 1 && false) inside NOT(...) / BIND gives error instead of false", floor=2)
+    ERRS = {"SPARQLError", "Exception", "BaseException"}
+    for q, f in op.functions():
+        if "." in q:
+            continue
+        iter_vars: dict[str, ast.AST] = {}
+        for n in own_nodes(f, include_nested=True):
+            if isinstance(n, ast.For) and isinstance(n.target, ast.Name):
+                iter_vars[n.target.id] = n
+            elif isinstance(n, ast.comprehension) and isinstance(n.target, ast.Name):
+                iter_vars[n.target.id] = n
+        for c in own_nodes(f, include_nested=True):
+            if not (isinstance(c, ast.Call) and norm(c.func) == "EBV" and len(c.args) == 1 and isinstance(c.args[0], ast.Name) and c.args[0].id in iter_vars):
+                continue
+            loop = iter_vars[c.args[0].id]
+            ok, why = False, ""
+            if not isinstance(loop, ast.For):
+                why = "EBV is applied inside a comprehension: the first operand error leaves it"
+            else:
+                tries = [p for p in op.parents(c) if isinstance(p, ast.Try) and any(p is x for x in ast.walk(loop))]
+                tries = [t for t in tries if any(c is x for s_ in t.body for x in ast.walk(s_))]
+                good = [t for t in tries for h in t.handlers if H.handler_catches(h, ERRS)
+                        and not any(isinstance(x, (ast.Raise, ast.Return, ast.Break)) for s_ in h.body for x in ast.walk(s_))]
+                ok = bool(good)
+                why = "operand errors are caught inside the loop" if ok else "no try/except SPARQLError around EBV inside the loop, or its handler leaves the loop"
+            rep.ob("C04.t-logical-connective-survives-an-operand-error", op, q, c, ok,
+                   why if ok else why + ": `error && false` / `error || true` give an error instead of false / true", node=c)
+
+    # ------------------------------------------------------------------ (u)
+    # CompValue.__getattr__/__getitem__ evaluate the stored operand at once (value(ctx, v, variables=False)) and raise
+    # NotBoundError for an unbound variable; only .get(name, variables=True) hands the Variable back.
+    rep.rule("C04.u-per-operand-error-handling-reads-operands-unevaluated",
+             "an evaluation function of operators.py that handles errors PER OPERAND (a loop over operands whose body has try/except SPARQLError) obtains the iterated "
+             "operands with `<e>.get(<name>, variables=True)` on every path that reaches the loop, never with `<e>.<name>` / `<e>[<name>]`: the attribute form "
+             "evaluates all operands at once and raises NotBoundError for an unbound variable before the loop is entered, so `?unbound || true` (true), "
+             "`false && ?unbound` (false) and `1 IN (?unbound, 1)` (true) abort as errors", floor=3)
+    for q, f in op.functions():
+        if "." in q or not f.args.args:
+            continue
+        p0 = f.args.args[0].arg
+        g = None
+        for lp in own_nodes(f):
+            if not (isinstance(lp, ast.For) and any(isinstance(s_, ast.Try) and any(H.handler_catches(h, {"SPARQLError"}) and h.type is not None for h in s_.handlers)
+                                                    for s_ in ast.walk(lp) if s_ is not lp)):
+                continue
+            names = sorted({n.id for n in ast.walk(lp.iter) if isinstance(n, ast.Name) and isinstance(n.ctx, ast.Load)})
+            if not names:
+                continue
+            if g is None:
+                g = CFG(f)
+            raw, lazy = [], 0
+            for nm in names:
+                for st in H.reaching_values(op, f, g, lp, nm):
+                    v = H.bound_value(st, nm) if st is not None else None
+                    if v is None:
+                        continue
+                    for x in ast.walk(v):
+                        if isinstance(x, ast.Subscript) and isinstance(x.value, ast.Name) and x.value.id == p0:
+                            raw.append(x)
+                        if isinstance(x, ast.Attribute) and isinstance(x.value, ast.Name) and x.value.id == p0:
+                            call = op.parent.get(id(x))
+                            is_get = x.attr == "get" and isinstance(call, ast.Call) and call.func is x
+                            if is_get and any(k.arg == "variables" and isinstance(k.value, ast.Constant) and k.value.value is True for k in call.keywords):
+                                lazy += 1
+                            elif not (isinstance(call, ast.Call) and call.func is x and x.attr not in ("get",)):
+                                raw.append(x)
+            if not raw and not lazy:
+                continue  # the loop does not iterate operands of the expression node
+            rep.ob("C04.u-per-operand-error-handling-reads-operands-unevaluated", op, q, "for %s in %s" % (norm(lp.target), norm(lp.iter)), not raw,
+                   "operands fetched with variables=True" if not raw else
+                   "the iterated operands come from %s, which evaluates them eagerly: an unbound variable among them raises NotBoundError for the whole expression "
+                   "instead of being that operand's error" % sorted({norm(x) for x in raw}), node=lp)
+
+    # ------------------------------------------------------------------ (v)
+    rep.rule("C04.v-extend-checks-a-pushed-in-value",
+             "where the evaluator adds a binding to a solution with `<solution>.merge({<var>: <value>})` (FrozenBindings.merge overwrites silently - Extend / BIND / "
+             "(expr AS ?v)), a test that reads the binding the incoming context already has for <var> (`ctx[<var>]`, `.get(<var>)`, `<var> in ...`) guards the merge: "
+             "a lazy join pushes the left solution into the right operand, and `{ ?s :p ?v } { BIND(2 AS ?v) }` must drop the rows whose ?v is not 2 rather than "
+             "overwrite ?v and let the incompatible join succeed", floor=1)
+    for q, f in ev.functions():
+        if "." in q:
+            continue
+        g = None
+        for c in own_nodes(f):
+            if not (isinstance(c, ast.Call) and isinstance(c.func, ast.Attribute) and c.func.attr == "merge" and len(c.args) == 1 and isinstance(c.args[0], ast.Dict)):
+                continue
+            keys = [k for k in c.args[0].keys if k is not None and not isinstance(k, ast.Constant)]
+            if not keys:
+                continue
+            if g is None:
+                g = CFG(f)
+            st = H.enclosing_stmt(ev, c)
+            for k in keys:
+                kt = norm(k)
+
+                def reads_prior(x: ast.AST) -> bool:
+                    if isinstance(x, ast.Subscript) and norm(x.slice) == kt:
+                        return True
+                    if isinstance(x, ast.Call) and isinstance(x.func, ast.Attribute) and x.func.attr == "get" and x.args and norm(x.args[0]) == kt:
+                        return True
+                    if isinstance(x, ast.Compare) and isinstance(x.ops[0], (ast.In, ast.NotIn)) and norm(x.left) == kt:
+                        return True
+                    return False
+
+                guards = []
+                for t in own_nodes(f):
+                    if isinstance(t, ast.If) and any(reads_prior(x) for x in H.closure_nodes(f, t.test)):
+                        inside = any(st is x for s_ in t.body + t.orelse for x in ast.walk(s_))
+                        exits = bool(t.body) and isinstance(t.body[-1], (ast.Continue, ast.Return, ast.Raise, ast.Break))
+                        if inside or exits:
+                            guards.append(g.node_of(t))
+                ok = bool(guards) and g.must_pass_before(g.node_of(st), guards)
+                rep.ob("C04.v-extend-checks-a-pushed-in-value", ev, q, c, ok,
+                       "guarded by a test on the prior binding of %s" % kt if ok else
+                       "%s is overwritten unconditionally: no test on the value the context already binds to it dominates the merge; a solution that is "
+                       "incompatible with the pushed-in left solution is turned into a compatible one (`{ ?s :p ?v } { BIND(2 AS ?v) }` returns every ?s)" % kt, node=c)
+
+    # ------------------------------------------------------------------ (w)
+    rep.rule("C04.w-made-up-graph-is-checked-for-existence",
+             "ConjunctiveGraph/Dataset.get_context(<id>) makes up an (empty) Graph object for ANY identifier. Where the evaluator makes such a graph the active graph "
+             "(GRAPH <iri> / GRAPH ?bound), every path from there to a yielded solution passes a test that depends on an enumeration of the dataset's graphs "
+             "(.contexts() / .graphs()): `GRAPH <urn:nosuch> { }`, `GRAPH <urn:nosuch> { OPTIONAL { ?s ?p ?o } }` or `... { BIND(1 AS ?x) }` have NO solution "
+             "when the dataset has no such graph, but the patterns match the made-up empty graph once", floor=1)
+    ENUM = {"contexts", "graphs"}
+    for q, f in ev.functions():
+        if "." in q:
+            continue
+        calls = [c for c in own_nodes(f) if isinstance(c, ast.Call) and isinstance(c.func, ast.Attribute) and c.func.attr == "get_context"]
+        if not calls:
+            continue
+        g = CFG(f)
+
+        def _enumerates(x: ast.AST) -> bool:
+            """x is a call that enumerates the dataset's graphs, directly or in the body of a module-level helper it names"""
+            if not isinstance(x, ast.Call):
+                return False
+            if isinstance(x.func, ast.Attribute) and x.func.attr in ENUM:
+                return True
+            if isinstance(x.func, ast.Name) and ev.has(x.func.id) and x.func.id != q:
+                return any(isinstance(y, ast.Call) and isinstance(y.func, ast.Attribute) and y.func.attr in ENUM for y in ast.walk(ev.get(x.func.id)))
+            return False
+
+        tests = [g.node_of(t) for t in own_nodes(f) if isinstance(t, (ast.If, ast.While)) and any(_enumerates(x) for x in H.closure_nodes(f, t.test))]
+        for c in calls:
+            src = g.node_of(H.enclosing_stmt(ev, c))
+            free = g.reach(src, avoid=tests)
+            outs = [g.nodes[i].ast for i in sorted(free) if g.nodes[i].ast is not None and g.nodes[i].kind == "stmt"
+                    and any(isinstance(x, (ast.Yield, ast.YieldFrom)) or (isinstance(x, ast.Return) and x.value is not None) for x in ast.walk(g.nodes[i].ast))]
+            any_out = any(isinstance(x, (ast.Yield, ast.YieldFrom, ast.Return)) for i in g.reach(src) if g.nodes[i].ast is not None and g.nodes[i].kind == "stmt" for x in ast.walk(g.nodes[i].ast))
+            if not any_out:
+                raise AnalysisError("%s: no solution is produced after get_context() (rule C04.w premise changed)" % q)
+            rep.ob("C04.w-made-up-graph-is-checked-for-existence", ev, q, c, not outs,
+                   "every solution is produced after an existence test over the dataset's graphs" if not outs else
+                   "`%s` is reached without any test over the dataset's graphs: for an identifier that names no graph the pattern is matched against the empty graph "
+                   "get_context() made up, and `GRAPH <urn:nosuch> { }` has one solution instead of none" % norm(outs[0])[:50], node=c)
+
+    # ------------------------------------------------------------------ (x)
+    rep.rule("C04.x-in-is-defined-through-the-equals-operator",
+             "RelationalExpression decides membership for IN / NOT IN with the same term method its operator table uses for `=` (Literal/Identifier.eq: value "
+             "equality, type error for incomparable terms), not with Python `==` (term identity): SPARQL 17.4.1.9 defines `x IN (a, b)` as `x = a || x = b`, so "
+             "`1 IN (1.0)` and `\"1\"^^xsd:integer IN (01)` are true", floor=1)
+    rf = op.func("RelationalExpression")
+    eq_rows = []
+    for n in own_nodes(rf, include_nested=True):
+        pairs = []
+        if isinstance(n, ast.Dict):
+            pairs = list(zip(n.keys, n.values))
+        elif isinstance(n, (ast.List, ast.Tuple)) and n.elts and all(isinstance(x, ast.Tuple) and len(x.elts) == 2 for x in n.elts):
+            pairs = [(x.elts[0], x.elts[1]) for x in n.elts]
+        for k, v in pairs:
+            if isinstance(k, ast.Constant) and k.value == "=" and isinstance(v, ast.Lambda) and isinstance(v.body, ast.Call) and isinstance(v.body.func, ast.Attribute):
+                eq_rows.append(v.body.func.attr)
+    if len(set(eq_rows)) != 1:
+        raise AnalysisError("RelationalExpression: row for `=` of the operator table not found (%s)" % eq_rows)
+    eq_method = eq_rows[0]
+    in_branches = [n for n in own_nodes(rf) if isinstance(n, ast.If) and {"IN", "NOT IN"} <= {x.value for x in ast.walk(n.test) if isinstance(x, ast.Constant)}
+                   and not any(isinstance(x, ast.Constant) and x.value == "=" for x in ast.walk(n.test))]
+    member_loops = [lp for b in in_branches for s_ in b.body for lp in ast.walk(s_) if isinstance(lp, ast.For)]
+    if not member_loops:
+        raise AnalysisError("RelationalExpression: loop over the members of the IN list not found")
+    for lp in member_loops:
+        deciders = [t for t in ast.walk(lp) if isinstance(t, ast.If) and any(isinstance(x, ast.Return) for s_ in t.body for x in ast.walk(s_))]
+        if not deciders:
+            raise AnalysisError("RelationalExpression: the IN loop has no `if <member matches>: return`")
+        lv = {x.id for x in ast.walk(lp.target) if isinstance(x, ast.Name)}
+        for t in deciders:
+            by_method = any(isinstance(x, ast.Call) and isinstance(x.func, ast.Attribute) and x.func.attr == eq_method for x in ast.walk(t.test))
+            by_ident = [x for x in ast.walk(t.test) if isinstance(x, ast.Compare) and any(isinstance(o, (ast.Eq, ast.NotEq, ast.Is, ast.IsNot, ast.In, ast.NotIn)) for o in x.ops)
+                        and lv & {y.id for y in ast.walk(x) if isinstance(y, ast.Name)}]
+            ok = by_method and not by_ident
+            rep.ob("C04.x-in-is-defined-through-the-equals-operator", op, "RelationalExpression", t.test, ok,
+                   "member compared with .%s() as `=` is" % eq_method if ok else
+                   "a member of the IN list is matched by `%s` and not by .%s() as the `=` operator is: `1 IN (1.0)` is false although `1 = 1.0` is true" % (norm(t.test)[:50], eq_method), node=t)
+
+    # ------------------------------------------------------------------ (y)
+    rep.rule("C04.y-truth-of-a-python-number-excludes-nan",
+             "where operators.py turns the Python value of a literal (`<lit>.toPython()`) into a truth value with bool(), the same boolean expression also excludes "
+             "NaN (a self-comparison `v == v` / `v != v` or an isnan call): bool(float('nan')) is True in Python but the effective boolean value of NaN is false "
+             "(SPARQL 17.2.2), so FILTER(\"NaN\"^^xsd:double) must reject every solution", floor=1)
+    for q, f in op.functions():
+        if "." in q:
+            continue
+        for c in own_nodes(f):
+            if not (isinstance(c, ast.Call) and norm(c.func) == "bool" and len(c.args) == 1):
+                continue
+            a = c.args[0]
+            from_py = [x for x in H.closure_nodes(f, a, depth=2) if isinstance(x, ast.Call) and isinstance(x.func, ast.Attribute) and x.func.attr == "toPython"]
+            if not from_py:
+                continue
+            top: ast.AST = c
+            for p in op.parents(c):
+                if isinstance(p, (ast.BoolOp, ast.UnaryOp, ast.IfExp)):
+                    top = p
+                else:
+                    break
+            at = norm(a)
+            nan_ok = any((isinstance(x, ast.Compare) and len(x.ops) == 1 and isinstance(x.ops[0], (ast.Eq, ast.NotEq)) and norm(x.left) == at and norm(x.comparators[0]) == at)
+                         or (isinstance(x, ast.Call) and norm(x.func).split(".")[-1].lower().replace("_", "") == "isnan") for x in ast.walk(top))
+            rep.ob("C04.y-truth-of-a-python-number-excludes-nan", op, q, top, nan_ok,
+                   "NaN excluded" if nan_ok else
+                   "bool(%s) of a toPython() value is the whole verdict: NaN is truthy in Python, so FILTER(\"NaN\"^^xsd:double) keeps every solution (its EBV is false)" % at, node=c)
+
+
 _run_before_borrow = run
 
 
